@@ -12,7 +12,7 @@ use happylock::{Keyable, ThreadKey};
 
 use crate::case::{Api, Built, Case, Exit, Expr, Session, Step, Stmt};
 use crate::shapes::{Node, NodeData, NodeGuard, NodeRData, NodeRGuard};
-use crate::vraw::{self, log, mark, Ctrl, HarnessStop, LockSt, UserPanic, VMutex, VRw, CTRL};
+use crate::vraw::{self, log, mark, Ctrl, HarnessStop, LockSt, UserPanic, VMutex, VRw, Val, CTRL};
 
 pub fn decl_leaves(e: &Expr, colls: &[Expr], out: &mut Vec<usize>) {
 	match e {
@@ -34,9 +34,9 @@ pub fn max_poison(e: &Expr, colls: &[Expr]) -> usize {
 }
 
 enum AnyGuard<'g> {
-	Mx(MutexGuard<'g, u64, VMutex>),
-	Rw(RwLockWriteGuard<'g, u64, VRw>),
-	Rr(RwLockReadGuard<'g, u64, VRw>),
+	Mx(MutexGuard<'g, Val, VMutex>),
+	Rw(RwLockWriteGuard<'g, Val, VRw>),
+	Rr(RwLockReadGuard<'g, Val, VRw>),
 	C(LockGuard<NodeGuard<'g>>),
 	Cr(LockGuard<NodeRGuard<'g>>),
 	P(PoisonGuard<'g, NodeGuard<'g>>),
@@ -52,8 +52,8 @@ impl Access for AnyGuard<'_> {
 	fn write(&mut self, pos: usize, v: u64) -> bool {
 		let mut out = Vec::new();
 		match self {
-			AnyGuard::Mx(g) => out.push(&mut **g),
-			AnyGuard::Rw(g) => out.push(&mut **g),
+			AnyGuard::Mx(g) => out.push(&mut (**g).0),
+			AnyGuard::Rw(g) => out.push(&mut (**g).0),
 			AnyGuard::C(g) => g.leaves(&mut out),
 			AnyGuard::P(g) => g.as_mut().leaves(&mut out),
 			_ => return false,
@@ -68,9 +68,9 @@ impl Access for AnyGuard<'_> {
 	}
 	fn read(&self, pos: usize) -> Option<u64> {
 		match self {
-			AnyGuard::Mx(g) => (pos == 0).then(|| **g),
-			AnyGuard::Rw(g) => (pos == 0).then(|| **g),
-			AnyGuard::Rr(g) => (pos == 0).then(|| **g),
+			AnyGuard::Mx(g) => (pos == 0).then(|| (**g).0),
+			AnyGuard::Rw(g) => (pos == 0).then(|| (**g).0),
+			AnyGuard::Rr(g) => (pos == 0).then(|| (**g).0),
 			AnyGuard::Cr(g) => {
 				let mut out = Vec::new();
 				g.leaves(&mut out);
@@ -285,23 +285,23 @@ fn scoped<'a, K: Keyable>(
 	match node {
 		Node::M(m) => {
 			if try_ {
-				m.scoped_try_lock(key, |d| f(AnyData::L(d), false))
+				m.scoped_try_lock(key, |d| f(AnyData::L(&mut d.0), false))
 			} else {
-				m.scoped_lock(key, |d| f(AnyData::L(d), false));
+				m.scoped_lock(key, |d| f(AnyData::L(&mut d.0), false));
 				Ok(())
 			}
 		}
 		Node::R(r) => match (try_, write) {
 			(false, true) => {
-				r.scoped_write(key, |d| f(AnyData::L(d), false));
+				r.scoped_write(key, |d| f(AnyData::L(&mut d.0), false));
 				Ok(())
 			}
 			(false, false) => {
-				r.scoped_read(key, |d| f(AnyData::Lr(d), false));
+				r.scoped_read(key, |d| f(AnyData::Lr(&d.0), false));
 				Ok(())
 			}
-			(true, true) => r.scoped_try_write(key, |d| f(AnyData::L(d), false)),
-			(true, false) => r.scoped_try_read(key, |d| f(AnyData::Lr(d), false)),
+			(true, true) => r.scoped_try_write(key, |d| f(AnyData::L(&mut d.0), false)),
+			(true, false) => r.scoped_try_read(key, |d| f(AnyData::Lr(&d.0), false)),
 		},
 		Node::P(p) => match (try_, write) {
 			(false, true) => {
